@@ -161,8 +161,11 @@ func rootsRun(in *rootsInput, ni int, f *vp.Family, lim int, junk []byte, absKey
 			panic(err.Error())
 		}
 		if err != nil {
-			rep.Violate(map[string]interface{}{"kind": "life-cycle-step-failed", "level": "trie-roots", "step": a.Name, "cache": cacheClass(lim)}, rpOf(0, "", ""),
-				"trie-roots, family %v, cache limit %d: step %d (%s) of %s fails: %v", f.Pos, lim, si+1, a.Name, trailText(nd.Trail), err)
+			sig := map[string]interface{}{"kind": "life-cycle-step-failed", "level": "trie-roots", "step": a.Name, "cache": cacheClass(lim)}
+			if cause := lostNodeCause(err.Error(), f, absKeys, in.Vals); cause != "" {
+				sig = map[string]interface{}{"kind": "trie-node-lost", "level": "trie-roots", "cause": cause}
+			}
+			rep.Violate(sig, rpOf(0, "", ""), "trie-roots, family %v, cache limit %d: step %d (%s) of %s fails: %v", f.Pos, lim, si+1, a.Name, trailText(nd.Trail), err)
 			return
 		}
 	}
@@ -216,7 +219,11 @@ func rootsRun(in *rootsInput, ni int, f *vp.Family, lim int, junk []byte, absKey
 					m, errText = nil, perr.Error()
 				}
 				if m == nil {
-					rep.Violate(map[string]interface{}{"kind": "generator-failed", "level": "trie-roots", "root": rootClass(nd, ri), "cache": cacheClass(lim)}, rp,
+					sig := map[string]interface{}{"kind": "generator-failed", "level": "trie-roots", "root": rootClass(nd, ri), "cache": cacheClass(lim)}
+					if cause := lostNodeCause(errText, f, absKeys, in.Vals); cause != "" {
+						sig = map[string]interface{}{"kind": "trie-node-lost", "level": "trie-roots", "cause": cause}
+					}
+					rep.Violate(sig, rp,
 						"trie-roots, family %v, cache limit %d: after %s no %s proof for key %s against the retained root #%d (%s): %s", f.Pos, lim, trailText(nd.Trail), enc, key, ri, rootClass(nd, ri), errText)
 					continue
 				}
@@ -273,6 +280,29 @@ func rootsRun(in *rootsInput, ni int, f *vp.Family, lim int, junk []byte, absKey
 			}
 		}
 	}
+}
+
+// lostNodeCause classifies "the trie node <hex> is unavailable": a node whose hash is the hash of a (key, value) leaf with height
+// byte 0 is the leaf at height 0 — and, because byte(256) = 0 (oddity O3 of Proof.tla), also that leaf as the shortcut of a
+// single-key trie at height 256.
+func lostNodeCause(errText string, f *vp.Family, absKeys, vals []string) string {
+	const marker = "the trie node "
+	i := strings.Index(errText, marker)
+	if i < 0 || len(errText) < i+len(marker)+64 {
+		return ""
+	}
+	h, err := hex.DecodeString(errText[i+len(marker) : i+len(marker)+64])
+	if err != nil {
+		return ""
+	}
+	for _, k := range absKeys {
+		for _, v := range vals {
+			if bytes.Equal(h, vhash(f.Key(k), cval(v), []byte{0})) {
+				return "height-0-leaf-shares-hash-with-root-shortcut"
+			}
+		}
+	}
+	return ""
 }
 
 // rootsGuard runs a call into the code under test; a panic there comes back as an error
